@@ -25,6 +25,13 @@ import MalVerif.Py.AbsModel
 import MalVerif.Py.GenLang.Attacks
 import MalVerif.Py.AbsLang
 import MalVerif.Py.GenWrapper.Wrapper
+import MalVerif.Py.GenLegacy.Updater
+import MalVerif.Py.GenLegacy.Securicad
+import MalVerif.Py.GenLang.Assocs
+import MalVerif.Py.AbsLangGraph
+import MalVerif.Py.GenNeo4j.IngestModel
+import MalVerif.Py.GenNeo4j.IngestGraph
+import MalVerif.Py.GenNeo4j.GetModel
 open Lean MalVerif
 
 namespace Drv
@@ -1236,6 +1243,182 @@ def opGenGenerate (j : Json) : R Json := do
                               ("names", jsonOfList (fun n => f (Gen.graph_get_node_by_full_name s n)) names)])])
 
 end GenXW
+/-! #### the legacy loaders of `Py/GenLegacy` on the documents the harness wrote (C18) -/
+namespace GenXLeg
+open MalVerif.PyM MalVerif.PyLeg
+
+def lErrName : LErr → String
+  | .py e => GenXM.pyErrName e | .validation => "ValidationError" | .typeError => "TypeError" | .unmodelled => "unmodelled"
+
+/-- what `json.loads` / `yaml.safe_load` returned, as the harness sends it: `null`, `true`/`false`, a string, a list, and
+tagged `{"i": "<decimal>"}` (int, any size), `{"f": "<repr>"}` (float, canonical text), `{"d": [[key, value], …]}` (dict in
+insertion order; keys `str` / `int` as in the file) -/
+partial def parsePyJ (j : Json) : R PyJ :=
+  match j with
+  | .null => pure .null
+  | .bool b => pure (.bool b)
+  | .str t => pure (.str t)
+  | .arr a => do pure (.list (← a.toList.mapM parsePyJ))
+  | .num _ => throw "untagged number in a document"
+  | .obj _ =>
+    match j.getObjVal? "i", j.getObjVal? "f", j.getObjVal? "d" with
+    | .ok v, _, _ => do
+      match (← jstr v).toInt? with
+      | some i => pure (.int i)
+      | none => throw "bad int text"
+    | _, .ok v, _ => do pure (.num (← jstr v))
+    | _, _, .ok v => do
+      let kvs ← (← jarr v).mapM (fun e => do
+        match (← jarr e) with
+        | [k, x] =>
+          match jKey (← parsePyJ k) with
+          | some key => pure (key, (← parsePyJ x))
+          | none => throw "dictionary key that is neither str nor int"
+        | _ => throw "bad dictionary entry")
+      pure (.dict kvs)
+    | _, _, _ => throw "bad document value"
+
+/-- one layer of the file boundary: the document that layer returns for the file, or the class of what it raises -/
+def parseLayer (j : Json) (k : String) : R (Except LErr PyJ) :=
+  match j.getObjVal? k with
+  | .error _ => pure (.error (.py .other))
+  | .ok v =>
+    match v.getObjVal? "raises" with
+    | .ok e => do pure (.error (if (← jstr e) == "ValueError" then .py .valueError else .py .other))
+    | .error _ => do pure (.ok (← parsePyJ v))
+
+def parseScad (j : Json) : R Legacy.ScadDoc := do
+  let objects ← jfield (jlist (fun o => do
+    let defs ← jfield (jlist (fun e => do
+      match (← jarr e) with
+      | [a, b] => pure ((← jstr a), (← jstr b))
+      | _ => throw "bad evidence")) o "defenses"
+    pure ({ id := ← jfield jint o "id", name := ← jfield jstr o "name", metaConcept := ← jfield jstr o "metaConcept",
+            defenses := defs } : Legacy.ScadObject))) j "objects"
+  let assocs ← jfield (jlist (fun a => do
+    pure ({ sourceObject := ← jfield jint a "sourceObject", targetObject := ← jfield jint a "targetObject",
+            sourceProperty := ← jfield jstr a "sourceProperty", targetProperty := ← jfield jstr a "targetProperty" } : Legacy.ScadAssoc))) j "associations"
+  pure { objects := objects, associations := assocs }
+
+/-- the `LanguageGraph` object handed to the securiCAD loader: the heap `heapOfLang L nodes` (`Py/AbsLangGraph.lean`), asked
+with the GENERATED `get_association_by_fields_and_assets` of `Py/GenLang/Assocs.lean` -/
+def lgView (L : Lang) (nodes : List AssocDecl) : LangGraphView :=
+  let gh := MalVerif.Py.LSpec.heapOfLang L nodes
+  { get_association_by_fields_and_assets := fun f1 f2 t1 t2 =>
+      match MalVerif.Py.GenLang.lg_get_association_by_fields_and_assets gh f1 f2 t1 t2 with
+      | .ok (some c) => .ok (some (MalVerif.Py.LSpec.declOf gh c))
+      | .ok none => .ok none
+      | .error .lookupError => .error (.py .lookupError)
+      | .error .nonTermination => .error (.py .nonTermination)
+      | .error _ => .error (.py .other) }
+
+def render (L : Lang) (r : Except LErr (Option H)) : Json :=
+  match r with
+  | .error e => jO [("error", jS (lErrName e))]
+  | .ok none => jO [("none", jB true)]
+  | .ok (some s) => let s := GenXM.normH s; jO [("loaded", Drv.obsM L (abs s)), ("name", jS s.name)]
+
+/-- `which = "old"`: `load_model_from_older_version(file, factory, version)` on the file whose content the two layers of the
+boundary return as `json` / `yaml`; `which = "scad"`: `load_model_from_scad_archive(file, lang_graph, factory)` on the parsed
+archive `eom`.  Parameters of the translation: pjs `==` relates no two different objects (assets of one model differ in `id`),
+`whileFuel` = number of entries + 2, `floatOk` = not listed in `badFloats` (the range check as the real library made it). -/
+def opGenLegacy (j : Json) : R Json := do
+  let L ← Drv.parseLang (← jget j "lang")
+  let which ← jfield jstr j "which"
+  let file ← jfield jstr j "file"
+  let bad := (← jfieldOpt (jlist jstr) j "badFloats").getD []
+  let fac : Factory := { L := L, floatOk := fun t => !bad.contains t }
+  let absent {α : Type} : String → Except LErr α := fun _ => .error (.py .other)
+  if which == "old" then
+    let js ← parseLayer j "json"
+    let ys ← parseLayer j "yaml"
+    let version ← jfield jstr j "version"
+    let size (d : Except LErr PyJ) : Nat := match d with
+      | .ok (.dict m) => (match lookupKey m (.s "assets") with | some (.dict a) => a.length | _ => 0)
+      | _ => 0
+    let files : Files := { json := fun f => if f == file then js else absent f, yaml := fun f => if f == file then ys else absent f, eom := absent }
+    let env : ModelEnv := { eqA := fun _ _ => false, eqL := fun _ _ => false, whileFuel := max (size js) (size ys) + 2 }
+    pure (render L ((Gen.updater_load_model_from_older_version files env file fac version).map some))
+  else
+    let d ← parseScad (← jget j "eom")
+    match LG.generate L with
+    | .error e => pure (jO [("skip", jS (Drv.lgErrName e))])
+    | .ok g =>
+      let files : Files := { json := absent, yaml := absent, eom := fun f => if f == file then .ok d else absent f }
+      let env : ModelEnv := { eqA := fun _ _ => false, eqL := fun _ _ => false, whileFuel := d.objects.length + 2 }
+      pure (render L (Gen.securicad_load_model_from_scad_archive files env file (lgView L g.assocs) fac))
+
+end GenXLeg
+
+/-! #### the Neo4j ingestor of `Py/GenNeo4j` on the recording database of the prelude (C19) -/
+namespace GenXNeo
+open MalVerif.PyN
+
+/-- the recorded database: every stored node with all labels and all properties (in the order of the keyword arguments),
+every stored relationship between positions, in stored order -/
+def dbToJson (db : Db) : Json :=
+  jO [("nodes", jsonOfList (fun (n : NeoNode) => jO [("labels", jsonOfList jS n.labels),
+          ("props", jsonOfList (fun (e : String × String) => Json.arr #[jS e.1, jS e.2]) n.props)]) db.nodes),
+      ("rels", jsonOfList (fun (r : DbRel) => Json.arr #[jN r.src, jS r.type, jN r.dst]) db.rels)]
+
+/-- the language side of `get_model` (parameters of the translation): the `LanguageGraph` object is `heapOfLang L nodes` asked
+with the GENERATED `get_association_by_fields_and_assets` (`GenXLeg.lgView`), `get_association_by_signature` and the class
+namespace are the conventions of `PreludeLegacy` (`facAssocBySignature`, `MS.assocClasses`) -/
+def neoEnv (L : Lang) (nodes : List AssocDecl) (menv : PyM.ModelEnv) : NeoEnv :=
+  let lg := GenXLeg.lgView L nodes
+  let fac : PyLeg.Factory := { L := L, floatOk := fun _ => true }
+  let cv {α : Type} (r : Except PyLeg.LErr α) : Except PyM.PyErr α :=
+    match r with | .ok a => .ok a | .error (.py e) => .error e | .error _ => .error .other
+  { menv := menv
+    get_association_by_fields_and_assets := fun f1 f2 t1 t2 =>
+      match cv (lg.get_association_by_fields_and_assets f1 f2 t1 t2) with
+      | .ok (some d) => .ok (some { name := d.name, left_field := ⟨⟨d.leftAsset⟩, d.leftField⟩, right_field := ⟨⟨d.rightAsset⟩, d.rightField⟩ })
+      | .ok none => .ok none
+      | .error e => .error e
+    get_association_by_signature := fun n l r => cv (PyLeg.facAssocBySignature fac n l r)
+    ns_has := fun t => (L.findAsset t).isSome || (MS.assocClasses L).any (·.cls = t)
+    ns_new_asset := fun t n => if (L.findAsset t).isSome then .ok { type := t, name := some n } else .error .attributeError
+    ns_new_assoc := fun c =>
+      match (MS.assocClasses L).find? (·.cls = c) with
+      | some k => if h : k.lf ≠ k.rf then .ok { cls := c, lf := k.lf, rf := k.rf, distinct := h } else .error .other
+      | none => .error .attributeError }
+
+/-- the model built by the history (generated `model_*` functions, as `gen_model_hist`), `ingest_model(model, …, delete=True)`
+into the empty recording database, then `get_model(…)` over what was stored -/
+def opGenNeo4jModel (j : Json) : R Json := do
+  let L ← Drv.parseLang (← jget j "lang")
+  let ops ← jfield jarr j "ops"
+  let mut s : PyM.H := { name := "hist" }
+  for o in ops do
+    let (s', err, _) ← GenXM.mStepGen L s o
+    if let .str e := err then
+      if e.startsWith "skip:" then return jO [("skip", jS e)]
+    s := GenXM.normH s'
+  match Gen.ingest_model {} s "uri" "u" "p" "db" true with
+  | .error e => pure (jO [("error", jS (GenXM.pyErrName e))])
+  | .ok w =>
+    let sub := dbToJson w.db
+    match LG.generate L with
+    | .error e => pure (jO [("sub", sub), ("objs", jN w.objs.length), ("back", jO [("skip", jS (Drv.lgErrName e))])])
+    | .ok lg =>
+      let menv : PyM.ModelEnv := { eqA := fun _ _ => false, eqL := fun _ _ => false, whileFuel := w.db.nodes.length + 2 }
+      let back := match Gen.get_model w (neoEnv L lg.assocs menv) "uri" "u" "p" "db" with
+        | .ok s' => let s' := GenXM.normH s'; jO [("loaded", Drv.obsM L (PyM.abs s')), ("name", jS s'.name)]
+        | .error e => jO [("error", jS (GenXM.pyErrName e))]
+      pure (jO [("sub", sub), ("objs", jN w.objs.length), ("back", back)])
+
+/-- the attack graph built by the history (generated functions, as `gen_ag_hist`), `ingest_attack_graph(graph, …, delete=True)` -/
+def opGenNeo4jGraph (j : Json) : R Json := do
+  let ops ← jfield jarr j "ops"
+  let mut s : MalVerif.Py.H := {}
+  for o in ops do
+    let (s', _, _) ← GenX.agStepGen s o
+    s := GenX.normH s'
+  match Gen.ingest_attack_graph {} s "uri" "u" "p" "db" true with
+  | .error e => pure (jO [("error", jS (GenX.pyErrName e))])
+  | .ok w => pure (jO [("sub", dbToJson w.db), ("objs", jN w.objs.length)])
+
+end GenXNeo
 
 def dispatch (j : Json) : R Json := do
   let op ← jfield jstr j "op"
@@ -1262,6 +1445,9 @@ def dispatch (j : Json) : R Json := do
   | "gen_model_hist" => GenXM.opGenModelHist j
   | "gen_resolve" => GenXL.opGenResolve j
   | "gen_generate" => GenXW.opGenGenerate j
+  | "gen_legacy" => GenXLeg.opGenLegacy j
+  | "gen_neo4j_model" => GenXNeo.opGenNeo4jModel j
+  | "gen_neo4j_graph" => GenXNeo.opGenNeo4jGraph j
   | _ => throw "bad-op"
 
 def handle (line : String) : String :=
